@@ -69,7 +69,7 @@ package iobroker
 //@   on go f(): nPeerCancel++
 //@   on enter WaitGroup.Add(wg, n): assert(held("Broker.mu") && !b.noMore, "add_only_under_lock_before_shutdown"); nAdd++
 //@   on call WaitGroup.Done(wg): nDone++
-//@   exit {C04}: assert(imp(nProxy == 1, b.key == "" && *cancelUs == nil), "released"); assert(imp(nProxy == 1, iff(nDisc == 1, *cancelOther == nil)) && imp(nProxy == 0, nDisc == 0) && nDisc <= 1, "gone_event_iff_both_ended"); assert(imp(nProxy == 1 && otherAtRelock, nPeerCancel == 1), "peer_cancelled")
+//@   exit {C01,C04}: assert(imp(nProxy == 1, b.key == "" && *cancelUs == nil), "released"); assert(imp(nProxy == 1, iff(nDisc == 1, *cancelOther == nil)) && imp(nProxy == 0, nDisc == 0) && nDisc <= 1, "gone_event_iff_both_ended"); assert(imp(nProxy == 1 && otherAtRelock, nPeerCancel == 1), "peer_cancelled")
 //@   ensures proxy_once: nProxy <= 1
 //@   ensures admitted_proxied: imp(!noMore0 && key != "" && !(key0 == "" && (us0 || other0)) && !us0 && (key0 == "" || key == key0), nProxy == 1)
 //@   ensures refusal_announced: imp(nProxy == 0 && !noMore0, nNotice >= 1 && nErrRec >= 1)
